@@ -34,7 +34,7 @@ ASSUMPTIONS = [
     "summation order inside a bin is unspecified: sums compared with tolerance 64 ulp x sum|v|",
     "a float32 value layer may be accumulated in float32 (judged at 64 float32 ulps); coordinates are float64 or integers (single-precision coordinates were tried and withdrawn, DESIGN 9.15)",
     "the large-input runs of the anchor are direct executions of the compiled kernel (one numba thread; one stress run with all threads whose record is coarse on purpose)",
-    "where a layer holds a NaN for a point, that layer"s value in that point"s bin is not judged (NaN and a NaN-skipping sum are both accepted); every other layer is judged as usual",
+    "where a layer holds a NaN for a point, the value of that layer in the bin of that point is not judged (NaN and a NaN-skipping sum are both accepted); every other layer is judged as usual",
 ]
 REAL_STUB = {
     "real": ["osyris.histogram2d front-end", "parse_layer / Layer", "Array/Vector", "unit handling", "hist2d kernel source (executed by CPython)"],
